@@ -4,6 +4,7 @@ import SqiGen.Tables1
 import SqiGen.Tables3
 import SqiGen.Tables5
 import SqiGen.EvenGuard
+import SqiModel.SkelEven
 /- driver ops for the 2^n-isogeny chain models:
      even.trace <lvl> <isog_len>     -> hook-visible trace of ec_eval_even_strategy on the level's STRATEGY4 table:
                                         "tag a b c tag a b c …", followed by "E" when the model halts on a fault
@@ -56,6 +57,13 @@ def handle : List String → Option String
       let deg := (s.trace.map Ev.deg).sum
       let n4 := (s.trace.filter (fun e => match e with | .iso4 .. => true | .fin4 .. => true | _ => false)).length
       pure s!"{if s.err.isSome then 1 else 0} {toHex s.strategy} {toHex deg} {toHex n4} {intToHex (maxCur s)}"
+  | ["skel.even", l, n] => do             -- generated integer skeleton (from the C text) vs hand model, same run
+      let l ← parseHexNat? l
+      let n ← parseHexNat? n
+      let (tab, f) ← tableOf l
+      let a := SqiModel.SkelEven.skelSummary tab f n 1024
+      let b := SqiModel.SkelEven.modelSummary tab f n 1024
+      pure (if a == b then s!"1 {if a.1 then 1 else 0} {a.2.2.2.2.1.length}" else s!"0 skel={repr a} model={repr b}")
   | ["small.trace", n] => do
       let n ← parseHexNat? n
       pure (natsToHex ((smallChain n n).flatMap fun e => match e with | .iso2 i d k => [i, d, k]))
